@@ -8,6 +8,9 @@ claimed = {
  'C12': dict(text="Unbounded deductive proof, for every program text and byte offset, that Lexer.GetLineAndCol returns exactly line N of the text, its 1-based number and the byte column of the offset (loop invariants + postconditions over the real code, discharged by z3/cvc5).",
              note=TB + "; only the position->(line,col,text) computation and the error constructors are under contract: which token an error is attached to ('inside the offending construct') is not decided (DESIGN.md 7).",
              design="4 C12"),
+ 'C13': dict(text="Unbounded deductive proof of the lexical clauses on the real lexer: whitespace/comment skipping never crosses a newline, a newline is always a token, numerals are digits with an optional fraction and never absorb an operator, keywords are recognised only on the whole maximal identifier run, string tokens are exactly the bytes between identical quotes, operators by maximal munch (postconditions of Lexer.skipWhitespace/number/identifier/string/Regex/Next for every source text and position).",
+             note=TB + "; unicode.IsLetter/IsDigit on non-ASCII runes are uninterpreted; the relational clauses (two layouts of the same token sequence behave identically; ';' interchangeable with newline) are relations between two parser runs and are NOT decided (DESIGN.md 7) -- only the enabling lexer facts are proved.",
+             design="4 C13"),
 }
 na = {}
 hook_commits = subprocess.run("git -C /repo log --format=%H --grep='^verif:'", shell=True, capture_output=True, text=True).stdout.split()
